@@ -75,6 +75,16 @@ def c05_search(rng, budget):
                     r = b.to(u2, inplace=True)
                     if r is not b or b.value != c.value or b.unit != c.unit:
                         out.append(dict(what=f'in-place conversion of {k}({v!r},{u1!r}) to {u2!r} gives {b!r}, copy gives {c!r}', case=dict(kind=k, v=v, u1=u1, u2=u2), cls='inplace'))
+                    # the object that was converted in place must go on behaving like the copy
+                    try:
+                        back_b = b.to(u1)
+                        same = (b == c, b != c, b <= c, b >= c, b < c, b > c)
+                        if abs(F(back_b.value) - F(v)) > abs(F(v)) * F(1, 10 ** 12) or back_b.unit != u1 or same != (True, False, True, True, False, False):
+                            out.append(dict(what=f'{k}({v!r},{u1!r}) converted in place to {u2!r} then behaves differently from its copy {c!r}: '
+                                                 f'back-conversion {back_b!r}, (==,!=,<=,>=,<,>) against the copy {same}', case=dict(kind=k, v=v, u1=u1, u2=u2), cls='inplace-state'))
+                    except Exception as e:  # noqa
+                        if S.valid_value(k, c.value):
+                            out.append(dict(what=f'{k}({v!r},{u1!r}) converted in place to {u2!r}: further use raised {type(e).__name__}', case=dict(kind=k, v=v, u1=u1, u2=u2), cls='inplace-state'))
                     try:
                         back = c.to(u1)
                         if abs(F(back.value) - F(v)) > abs(F(v)) * F(1, 10 ** 12):
